@@ -590,7 +590,9 @@ int write_elf(
 
   // .comment section
   elf.sections_offset.comment = file.tell();
-  file.write_string("Created with naken_asm. https://www.mikekohn.net/", false);
+  // The section is flagged SHF_MERGE | SHF_STRINGS: its content has to be
+  // null-terminated strings.
+  file.write_string("Created with naken_asm. https://www.mikekohn.net/");
   elf.sections_size.comment = file.tell() - elf.sections_offset.comment;
 
   // Align sections
